@@ -166,8 +166,9 @@ isal_aes_xts_dec_128_expanded_key(const uint8_t *k2, const uint8_t *k1,
 
 #ifdef FIPS_MODE
         /* k1 is a decryption schedule and k2 an encryption schedule: the last round key of
-         * k1 and the first round key of k2 both hold the raw 16-byte key */
-        if (memcmp(k1 + 16 * 10, k2, 16) == 0)
+         * k1 and the first round key of k2 both hold the raw 16-byte key.
+         * Byte-identical expanded keys (16*11 bytes) are refused as well */
+        if (memcmp(k1 + 16 * 10, k2, 16) == 0 || memcmp(k1, k2, 16 * 11) == 0)
                 return ISAL_CRYPTO_ERR_XTS_SAME_KEYS;
 
         if (isal_self_tests())
@@ -314,7 +315,8 @@ isal_aes_xts_dec_256_expanded_key(const uint8_t *k2, const uint8_t *k1,
 #ifdef FIPS_MODE
         /* k1 is a decryption schedule and k2 an encryption schedule of the same key when
          * the last round key of each equals the first round key of the other */
-        if (memcmp(k1 + 16 * 14, k2, 16) == 0 && memcmp(k1, k2 + 16 * 14, 16) == 0)
+        if ((memcmp(k1 + 16 * 14, k2, 16) == 0 && memcmp(k1, k2 + 16 * 14, 16) == 0) ||
+            memcmp(k1, k2, 16 * 15) == 0) /* byte-identical expanded keys are refused as well */
                 return ISAL_CRYPTO_ERR_XTS_SAME_KEYS;
 
         if (isal_self_tests())
